@@ -143,7 +143,7 @@ write("C18", [run("sequential", HEALTH, "VerifC18Sequential", {"params": {"K": 4
 
 # ---- C20
 DIRR = M + "/processors/auditd/dirreader"
-write("C20", [run("sort", DIRR, "VerifC20Sort", {"params": {"N": 3, "D": 2}}, {"params": {"N": 4, "D": 3}}, reach=["c20.sort.pair"],
+write("C20", [run("sort", DIRR, "VerifC20Sort", {"params": {"N": 3, "D": 3}}, {"params": {"N": 4, "D": 3}}, reach=["c20.sort.pair"],
                   bounds="N directory entries from {audit.log, audit.log.<1..D digits, no leading zero, optionally a directory>, foreign name}"),
               run("tail", DIRR, "VerifC20Tail", {"params": {"K": 3, "B": 2}}, {"params": {"K": 4, "B": 3}}, reach=["c20.tail.line", "c20.tail.partial", "c20.tail.rotate", "c20.tail.truncate"],
                   bounds="K operations from {append line, append two lines, append fragment, append newline, rotate, truncate}; fragments of B symbolic bytes; optional initial content (one line + one fragment)")],
@@ -153,11 +153,13 @@ write("C20", [run("sort", DIRR, "VerifC20Sort", {"params": {"N": 3, "D": 2}}, {"
 
 # ---- C12
 NP = M + "/ingesters/namedpipe"
-write("C12", [run("framing", NP, "VerifC12Framing", {"params": {"T": 4}, "preempt": 0}, {"params": {"T": 5}, "preempt": 1}, reach=["c12.returned", "c12.record", "c12.callback-error"],
+write("C12", [run("long-record", NP, "VerifC12LongRecord", {"params": {"L": 4100}, "preempt": 0, "max_steps": 30000000}, {"params": {"L": 9000}, "preempt": 0, "max_steps": 60000000}, reach=["c12.long.returned"],
+                  bounds="a record of L+3 bytes (longer than bufio's 4096-byte buffer; concrete filler, symbolic first two and last byte) between short and empty records; three ways of splitting the stream into writes"),
+              run("framing", NP, "VerifC12Framing", {"params": {"T": 4}, "preempt": 0}, {"params": {"T": 5}, "preempt": 1}, reach=["c12.returned", "c12.record", "c12.callback-error"],
                   bounds="stream of exactly T arbitrary bytes (delimiter positions symbolic), every partition into write calls, callback error at every record index or never; writer closes at the end")],
       ["FIFO model: a Read returns the bytes of one pending write call (or its prefix), blocks on an empty open pipe, returns io.EOF after the writer closed; Close wakes a blocked Read with an error",
        "the callback argument may carry its single trailing delimiter (C07 decides that); bufio executed from its real source"],
-      ["records longer than bufio's 4096-byte buffer (the ErrBufferFull accumulation path)", "pauses between writes (the model has order, not time)", "the kernel FIFO itself"], site_prefix="c12.")
+      ["symbolic (as opposed to mostly concrete) contents for records beyond the buffer size", "pauses between writes (the model has order, not time)", "the kernel FIFO itself"], site_prefix="c12.")
 
 
 # ---- C19 again: the message forms plus the arbitrary lines of C11 (sites c19.*)
@@ -216,7 +218,7 @@ write("C13", c13, ["cancellation is injected once every goroutine of the worker 
 # ---- C03
 c03 = []
 for prog, nm, pq, pt in ((1, "login-vs-session", 2, -1), (2, "plus-other-session", 1, 2), (3, "plus-cleanup", 1, 2), (4, "all-four", 0, 1)):
-    c03.append(run(nm, TRK, "VerifC03Concurrent", {"params": {"PROG": prog}, "preempt": pq, "max_steps": 20000000}, {"params": {"PROG": prog}, "preempt": pt, "max_steps": 50000000},
+    c03.append(run(nm, TRK, "VerifC03Concurrent", {"params": {"PROG": prog}, "preempt": pq, "max_steps": 20000000, "race": True}, {"params": {"PROG": prog}, "preempt": pt, "max_steps": 50000000, "race": True},
                    reach=["c03.all-returned"] + (["c03.matching-pid"] if prog <= 2 else []),
                    bounds="program %d: RemoteLogin(p) || AuditdEvent(LOGIN s,p'); AuditdEvent(e,s)%s%s; p,p' symbolic (equal and unequal); interleavings at lock-acquisition granularity, preemption bound %s (quick) / %s (thorough)" % (
                        prog, " || two events of another session" if prog in (2, 4) else "", " || both cleanup calls" if prog in (3, 4) else "", pq, "unbounded" if pt < 0 else pt)))
